@@ -37,7 +37,7 @@ BLOCKISH_PARENTS = {'preface', 'preamble', 'conclusions', 'item', 'content', 'in
                     'authorialNote', 'embeddedStructure', 'mainBody', 'introduction', 'background', 'arguments', 'remedies', 'motivation', 'decision',
                     'listIntroduction', 'listWrapUp', 'p', 'heading', 'subheading'}
 
-def all_errors(xml):
+def all_errors(xml, text=None):
     """every distinct (element, parent, kind) the validator reports, in order"""
     from cobalt.schemas import get_schema
     schema = get_schema('http://docs.oasis-open.org/legaldocml/ns/akn/3.0', False)
@@ -45,7 +45,7 @@ def all_errors(xml):
         return []
     out = []
     for e in schema.error_log:
-        t = _triple(xml, e)
+        t = _triple(xml, e, text)
         if t not in out: out.append(t)
     return out
 
@@ -53,7 +53,7 @@ def first_error(xml):
     errs = all_errors(xml)
     return errs[0] if errs else None
 
-def _triple(xml, e):
+def _triple(xml, e, text=None):
     msg = re.sub(r"\{http[^}]*\}", "", str(e.message))
     m = re.match(r"Element '([^']+)'(?:, attribute '([^']+)')?: (.*)", msg)
     if not m:
@@ -68,6 +68,9 @@ def _triple(xml, e):
         # an attribute inside a meta block is never the author's: bluebell (and cobalt) write every one of them
         if node and attr and any(a.tag.split('}')[-1] == 'meta' for a in node[0].iterancestors()):
             kind = 'meta-' + kind
+        # ... and an attribute whose value is not the one written in the text (`{name value}`) is not the author's either
+        elif node and attr and text is not None and node[0].get(attr) is not None and (node[0].get(attr).strip() == '' or ('%s %s' % (attr, node[0].get(attr).strip())) not in text):
+            kind = 'changed-' + kind
     except Exception:
         pass
     return (el, parent, kind)
@@ -80,7 +83,7 @@ def _oracle(args):
         xml = AkomaNtosoParser(FrbrUri.parse(uri), prefix).parse_to_xml(text, root)
     except Exception as e:
         return ('raised', impl.exc_kind(e), 0)
-    errs = all_errors(xml)
+    errs = all_errors(xml, text)
     n = sum(1 for _ in xml.iter()) - 25
     # attributes written in the markup that the schema does not allow, or of the wrong type, are outside the property;
     # the by attribute that bluebell derives itself is not
@@ -161,6 +164,22 @@ FRBR_URIS = ['/akn/za/act/2009/10', '/akn/za/act/2009/10/eng', '/akn/za/act/2009
              '/akn/na/act/p/1990-03-21/1', '/akn/za/doc/policy/doj/2015-06-01/white-paper', '/akn/un/statement/deliberation/unga/2011-03-09/65-251/fra@']
 URI_TEXTS = {'act': 'SEC 1. - Title\n\n  Some text.\n\nSCHEDULE - One\n  x\n', 'debate': 'DEBATESECTION\n  SPEECH\n    FROM a\n    words\n',
              'judgment': 'INTRODUCTION\n  x\nSCHEDULE\n  y\n'}
+def explicit_attr_cases():
+    """schema-permitted attributes with valid values, written explicitly on the constructs that take an attribute list - among them eId on
+    elements that bluebell itself never numbers (cells, inlines)"""
+    out = []
+    shapes = ['SEC 1.\n  TABLE%s\n    TR\n      TC%s\n        x\n      TH%s\n        h\n', 'x {{abbr%s AKN}} {{inline%s i}} {{em%s e}} {{+%s a}} {{-%s d}} {{term%s t}} {{def%s d}}\n',
+              'SEC%s 1. - h\n  P%s text\n  CROSSHEADING%s c\n  ITEMS%s\n    ITEM%s (a)\n      x\n  QUOTE%s\n    q\n  BLOCKS%s\n    b\n  BULLETS%s\n    * x\n']
+    for at in ('{eId cell-a}', '{eId x_1|title t}', '{title t}', '{class c}', '{status removed}', '{wId w1}', '{GUID g1}', '{refersTo #x}', '{period #p}', '{alternativeTo a1}', '{style color: red}', '{lang fr}'):
+        for shape in shapes:
+            k = shape.count('%s')
+            for i in range(k):
+                for root in ('act', 'judgment', 'statement'):
+                    out.append((stages.URIS[0], root, '', shape % tuple(at if j == i else '' for j in range(k))))
+    for root in gen.ROOTS7:
+        out.append((stages.URIS[0], root, '', 'DEBATESECTION\n  SPEECH\n    FROM a\n    an {{em{eId em-1} order}}\n' if root == 'debate' else 'x {{em{eId em-1} order}}\n'))
+    return out
+
 def uri_cases():
     return [(u, root, '', URI_TEXTS.get(root, URI_TEXTS['act'])) for u in FRBR_URIS for root in gen.ROOTS7]
 
@@ -170,7 +189,7 @@ def correspondence(ctx):
     stages.stage_e2e(ctx, cs)
 
 def search(ctx, budget):
-    cs = list(getattr(ctx, '_docs', [])) + (cases(ctx, ctx.n(700, 40000) * (budget - 1)) if budget > 1 else []) + uri_cases()
+    cs = list(getattr(ctx, '_docs', [])) + (cases(ctx, ctx.n(700, 40000) * (budget - 1)) if budget > 1 else []) + uri_cases() + explicit_attr_cases()
     for c, r in zip(cs, impl.pmap(_oracle, cs, chunk=8)):
         ctx.evaluations += 1; ctx.count('oracle_' + r[0])
         if r[0] == 'bad':
